@@ -1367,6 +1367,12 @@ func (s *specScenario) direction2(from, to *specParty, withDisconnect bool) {
 			// long after the addressee last sent anything: a heartbeat would be due
 			otr3.VerifShiftClock(to.c, 90*time.Second)
 		}
+		if m.kind == "smp-abort-empty" && otr3.VerifSnapshot(to.c).SmpState <= 1 {
+			// an abort is only interesting while something is there to abort: the addressee has a run of
+			// its own under way (its request is never delivered)
+			s.call(to, nil, func() ([]otr3.ValidMessage, error) { return to.c.StartAuthenticate("", []byte("never answered")) })
+			s.g.dist["direction2:smp-abort-empty:run-in-progress"]++
+		}
 		smpBefore := otr3.VerifSnapshot(to.c).SmpState
 		if !s.deliverData(to, f, "", m.kind) {
 			specViol(key, describe("Receive rejected the message or returned a different text"))
@@ -1379,9 +1385,22 @@ func (s *specScenario) direction2(from, to *specParty, withDisconnect bool) {
 			if st := otr3.VerifSnapshot(to.c).MsgState; st != 2 {
 				specViol(key, describe(fmt.Sprintf("message state %d after a type 1 TLV", st)))
 			}
+			// C03: the peer has ended the conversation (in the form the protocol document gives, which is
+			// not the form this library writes): nothing the user says now may go out
+			olog.ok("C03")
+			var out []otr3.ValidMessage
+			var serr error
+			said := []byte("said after the goodbye")
+			if guard(func() string { out, serr = to.c.Send(otr3.ValidMessage(said)); return "" }) == "PANIC" {
+				olog.viol("C13", "send-panics", describe("Send after the peer's disconnect panicked"))
+			} else if serr == nil || len(out) > 0 {
+				olog.viol("C03", "send-after-peer-disconnect", describe(fmt.Sprintf("after the peer's disconnect message Send returns err=%v and %d message(s): the text leaves the machine although the conversation has ended", serr, len(out))))
+			}
 		case "smp-abort-empty":
+			olog.ok("C12")
 			if st := otr3.VerifSnapshot(to.c).SmpState; st > 1 {
 				specViol(key, describe(fmt.Sprintf("SMP state %d -> %d after an SMP abort", smpBefore, st)))
+				olog.viol("C12", "abort-in-protocol-form-not-honoured", describe(fmt.Sprintf("SMP state %d -> %d after an SMP abort TLV with an empty value (the form the protocol document prescribes): the run is not reset, the next honest run cannot succeed", smpBefore, st)))
 			}
 		}
 	}
